@@ -94,6 +94,7 @@ pub struct Interp<'tcx> {
     pub moduli: Rc<Vec<i128>>,
     /// loop peeling: (function name substring, iterations analysed separately before the loop is joined)
     pub peel: Vec<(String, u32)>,
+    pub loopcut: Vec<(String, u32)>,
     /// callee name patterns whose integer results are tracked as path facts
     pub track_ret: Vec<String>,
     pub fact_gen: u64,
@@ -103,6 +104,7 @@ pub struct Interp<'tcx> {
     pub atomize_count: HashMap<String, usize>,
     pub ident_pats: Vec<String>,
     pub dump_args_pats: Vec<String>,
+    pub dump_args_count: HashMap<String, u32>,
     pub ret_key: u8,
     pub next_atom: usize,
     pub cur_bb: usize,
@@ -167,6 +169,7 @@ impl<'tcx> Interp<'tcx> {
             probe_pats: Vec::new(),
             moduli: Rc::new(Vec::new()),
             peel: Vec::new(),
+            loopcut: Vec::new(),
             track_ret: Vec::new(),
             fact_gen: 0,
             lin_tier: false,
@@ -175,6 +178,7 @@ impl<'tcx> Interp<'tcx> {
             atomize_count: HashMap::new(),
             ident_pats: Vec::new(),
             dump_args_pats: Vec::new(),
+            dump_args_count: HashMap::new(),
             ret_key: 3,
             next_atom: 0,
             cur_bb: 0,
